@@ -1,6 +1,9 @@
 import BddVerif.Props.C08
 import BddVerif.Lemmas.AlgoEqIterDriver
 import BddVerif.Lemmas.AlgoEq3SatDriver
+import BddVerif.Lemmas.AlgoEq4OwnedDriver
+import BddVerif.Lemmas.AlgoEq4MiscDriver
+import BddVerif.Lemmas.TraitTable
 #print axioms B.Props.C08.paths_partition
 #print axioms B.Props.C08.paths_partition_root
 #print axioms B.Props.C08.extensions_spec
@@ -37,3 +40,18 @@ import BddVerif.Lemmas.AlgoEq3SatDriver
 #print axioms B.AlgoEq3Sat.sat_clauses_translated
 #print axioms B.AlgoEq3Sat.sat_iter_translated_false
 #print axioms B.AlgoEq3Sat.sat_iter_translated_driver
+#print axioms B.AlgoEq4.OwnedBddPathIterator_next_eq_borrowed
+#print axioms B.AlgoEq4.OwnedBddPathIterator_new_eq_borrowed
+#print axioms B.AlgoEq4.Bdd_into_sat_clauses_eq_borrowed
+#print axioms B.AlgoEq4.OwnedBddSatisfyingValuations_next_eq_borrowed
+#print axioms B.AlgoEq4.Bdd_into_sat_valuations_eq_borrowed
+#print axioms B.AlgoEq4.owned_returns_bdd_translated
+#print axioms B.AlgoEq4.owned_sat_iter_translated
+#print axioms B.AlgoEq4.owned_path_iter_translated
+#print axioms B.AlgoEq4.owned_sat_take_translated
+#print axioms B.AlgoEq4.owned_path_take_translated
+#print axioms B.AlgoEq4.owned_vals_back_driver
+#print axioms B.AlgoEq4.owned_paths_back_driver
+#print axioms B.AlgoEq4.BddValuationIterator_translated_eq
+#print axioms B.AlgoEq4.BddValuationIterator_driver
+#print axioms B.TraitTable.iterators_define_only_next
